@@ -8,7 +8,7 @@ simplices containing the node.
 """
 from itertools import combinations
 
-from .. import ops, snap
+from .. import ops, snap, suite
 from . import common
 
 PID = "C03"
@@ -19,6 +19,7 @@ RULE = (
     "case = one seeded edit history (<= 25 ops from SimplicialComplex's own mutators: add_simplex, add_simplices_from fmt 1-5 x max_order, "
     "weighted, remove_simplex_id(s), remove_node(s), close, cleanup, the deprecated edge aliases, relabelling) from a constructible start state; "
     "one evaluation = invariant + per-op postconditions after one op. distinct_nontrivial = distinct (op, outcome, post-state) with a state change or a raise"
+    " | suite: the repository's own tests run under xgimon/suite_plugin.py; every outermost public boundary call on a network is one more evaluation"
 )
 ASSUMPTIONS = [
     "inherited Hypergraph rewiring methods and None members are outside the statement's input space and are not driven",
@@ -28,14 +29,15 @@ ASSUMPTIONS = [
 
 def plan(tier):
     if tier == "quick":
-        return {"hostile": 1500, "steered": 700, "start": 300}
-    return {"hostile": 120000, "steered": 60000, "start": 25000}
+        return {"hostile": 1500, "steered": 700, "start": 300, "suite": 1}
+    return {"hostile": 120000, "steered": 60000, "start": 25000, "suite": 1}
 
 
 def floors(tier):
     f = {f"op:{n}": 15 for n in common.op_names(CLS)}
     f.update({"post-raise-evaluations": 30, "outcome:returned": 1000, "changed-state": 300, "has_simplex-queries": 10000,
               "postcond:remove_simplex_id": 50, "postcond:max_order": 50, "postcond:remove_node": 30})
+    f["suite:evaluations"] = 30  # boundary calls of the repository's own tests observed by the same oracle
     return f
 
 
@@ -110,4 +112,6 @@ def per_op(mon, net, op, pre, outcome, hist):
 
 
 def run_case(mon, kind, idx, rng):
+    if kind == "suite":  # the repository's own tests as a workload, observed by xgimon/suite_plugin.py
+        return suite.run(mon, PID, mon.tier)
     common.invariant_episode(mon, PID, CLS, snap.inv_simplicial, kind, rng, per_op=per_op)
